@@ -854,3 +854,16 @@ v("c13-omitted-optional-variable-stops-coercion", "C13", "INDEPENDENT-KEYS", E +
   "                # Non-provided values for nullable variables are omitted.\n                continue\n", "                # Non-provided values for nullable variables are omitted.\n                break\n")
 v("c13-literal-validation-returns-in-field-loop", "C13", "VALIDATOR-EXHAUSTIVE", U + "validate_input_value.py",
   "                if isinstance(field_value_node, VariableNode) and not context.static:\n", "                if isinstance(field_value_node, VariableNode) and context.static:\n                    return\n                if isinstance(field_value_node, VariableNode) and not context.static:\n")
+
+# -- round 5: C06 ------------------------------------------------------------------------------------------
+v("c06-nulled-groups-filtered-not-aborted", "C06", "NULLED-ABORTED", E + "incremental/incremental_executor.py",
+  "            if has_nulled_position(task.path):\n                self.settle_abort_result(task.computation.abort(cancellation_reason))\n            else:\n                filtered_tasks.append(task)\n",
+  "            if not has_nulled_position(task.path):\n                filtered_tasks.append(task)\n")
+v("c06-hook-waits-once", "C06", "HOOK-AFTER-DRAIN", E + "executor.py",
+  "            while background_futures:\n                await wait(list(background_futures))\n", "            await wait(list(background_futures))\n")
+v("c06-hook-waits-until-empty-other-spelling", "C06", "HOOK-AFTER-DRAIN", E + "executor.py",
+  "            while background_futures:\n                await wait(list(background_futures))\n", "            while len(background_futures) > 0:\n                await wait(list(background_futures))\n", expect="silent")
+v("c06-wrapper-closes-the-iterable", "C06", "CLOSE-WHAT-YOU-ADVANCE", E + "executor.py",
+  "                aclose = getattr(iterator, \"aclose\", None)\n", "                aclose = getattr(iterable, \"aclose\", None)\n")
+v("c06-cleanup-settles-only-with-live-producer", "C06", "CLEANUP-SETTLES", E + "incremental/stream_item_queue.py",
+  "            await gather(producer_task, return_exceptions=True)\n        await self._settle_pending()\n        on_abort = self._on_abort\n", "            await gather(producer_task, return_exceptions=True)\n            await self._settle_pending()\n        on_abort = self._on_abort\n")
